@@ -367,7 +367,7 @@ impl CompassApp {
         let input_plugin_result: (Vec<_>, Vec<_>) = queries
             .par_chunks(plugin_chunk_size)
             .map(|queries| {
-                let result: (Vec<Vec<Value>>, Vec<Value>) = queries
+                let result: (Vec<Vec<Value>>, Vec<Vec<Value>>) = queries
                     .iter()
                     .map(|q| {
                         let inner_processed = apply_input_plugins(q, &self.input_plugins);
@@ -376,10 +376,7 @@ impl CompassApp {
                         }
                         inner_processed
                     })
-                    .partition_map(|r| match r {
-                        Ok(values) => Either::Left(values),
-                        Err(error_response) => Either::Right(error_response),
-                    });
+                    .unzip();
 
                 result
             })
@@ -402,7 +399,11 @@ impl CompassApp {
                 });
         let load_balanced_inputs =
             ops::apply_load_balancing_policy(&processed_inputs, parallelism, 1.0)?;
-        let mut error_inputs: Vec<Value> = error_inputs_nested.into_iter().flatten().collect();
+        let mut error_inputs: Vec<Value> = error_inputs_nested
+            .into_iter()
+            .flatten()
+            .flatten()
+            .collect();
         error_inputs.extend(invalid_weight_inputs);
         if load_balanced_inputs.is_empty() {
             return Ok(error_inputs);
@@ -581,19 +582,30 @@ pub fn run_batch_without_responses(
     Ok(Box::new(std::iter::empty::<Value>()))
 }
 
-/// helper that applies the input plugins to a query, returning the result(s) or an error if failed
+/// helper that applies the input plugins to a query. returns the queries that came out of
+/// the plugins (more than one after grid search) together with an error response for every
+/// query that a plugin rejected on the way; one failing query does not affect the others.
 pub fn apply_input_plugins(
     query: &serde_json::Value,
     plugins: &Vec<Arc<dyn InputPlugin>>,
-) -> Result<Vec<serde_json::Value>, serde_json::Value> {
+) -> (Vec<serde_json::Value>, Vec<serde_json::Value>) {
     let mut plugin_state = serde_json::Value::Array(vec![query.clone()]);
+    let mut errors: Vec<serde_json::Value> = vec![];
     for plugin in plugins {
         let p = plugin.clone();
         let op: in_ops::InputArrayOp = Rc::new(|q| p.process(q));
-        in_ops::json_array_op(&mut plugin_state, op)?
+        if let Err(invariant_error) = in_ops::json_array_op(&mut plugin_state, op, &mut errors) {
+            errors.push(invariant_error);
+            return (vec![], errors);
+        }
     }
-    let result = in_ops::json_array_flatten(&mut plugin_state)?;
-    Ok(result)
+    match in_ops::json_array_flatten(&mut plugin_state) {
+        Ok(result) => (result, errors),
+        Err(invariant_error) => {
+            errors.push(invariant_error);
+            (vec![], errors)
+        }
+    }
 }
 
 // helper that applies the output processing. this includes
